@@ -117,6 +117,37 @@ def _pure_call(chk, f, n: ast.Call, depth=2, _seen=None) -> bool:
     if targets:
         return all(_effect_free(chk, t, depth, _seen) for t in targets)
     fn = n.func
+    if isinstance(fn, ast.Name) and fn.id not in _PURE_NAMES:
+        # a local bound to one of several pure callables (`parser = float if '.' in s else int`)
+        leaves = []
+        for a in walk_local(f.node):
+            if isinstance(a, ast.Assign) and any(isinstance(t, ast.Name) and t.id == fn.id for t in a.targets):
+                todo = [a.value]
+                while todo:
+                    x = todo.pop()
+                    if isinstance(x, ast.IfExp):
+                        todo += [x.body, x.orelse]
+                    else:
+                        leaves.append(x)
+        # ... or a loop variable running over a table written out in the function
+        tables = {t.id: a.value for a in walk_local(f.node) if isinstance(a, (ast.Assign, ast.AnnAssign))
+                  for t in (a.targets if isinstance(a, ast.Assign) else [a.target])
+                  if isinstance(t, ast.Name) and isinstance(getattr(a, "value", None), (ast.Tuple, ast.List))}
+        for lp in walk_local(f.node):
+            if isinstance(lp, ast.For) and isinstance(lp.target, (ast.Tuple, ast.List)):
+                names = [t.id if isinstance(t, ast.Name) else None for t in lp.target.elts]
+                if fn.id in names:
+                    it = lp.iter if isinstance(lp.iter, (ast.Tuple, ast.List)) else tables.get(getattr(lp.iter, "id", None))
+                    if it is not None and all(isinstance(r, (ast.Tuple, ast.List)) and len(r.elts) == len(names)
+                                              for r in it.elts):
+                        leaves += [r.elts[names.index(fn.id)] for r in it.elts]
+
+        def pure_leaf(x):
+            if isinstance(x, ast.Name):
+                return x.id in _PURE_NAMES or _enum_like(chk, f, x)
+            return isinstance(x, ast.Attribute) and x.attr in ("__getitem__", "__call__") and _enum_like(chk, f, x.value)
+        if leaves and all(pure_leaf(x) for x in leaves):
+            return True
     if isinstance(fn, ast.Name):
         return fn.id in _PURE_NAMES or _enum_like(chk, f, fn)
     if isinstance(fn, ast.Attribute):
